@@ -62,8 +62,8 @@ def dchart(rng, max_cols=16, max_players=3, max_measures=4, density=0.3, keysoun
             pre = blank()
             post = blank()
             # the separator line ('&' / ',') must not be glued to the last row unless the row ended a line or blanks follow
-            if rows[-1]["eol"] == "" and not post:
-                post = "\n"
+            if rows[-1]["eol"] == "" and not any(ch in post for ch in "\n\r\x0b\x0c\x1c\x1d\x1e\x85\u2028\u2029"):
+                post += "\n"
             ms.append({"pre": pre if pre else ("\n" if (m > 0 or p > 0) else ""), "rows": rows, "post": post})
         chart.append(ms)
     return chart
